@@ -201,7 +201,8 @@ func ruleR18_4(w *World, r *Report) {
 	for _, x := range d.calls("sync", "syncPushPullPacks") {
 		found = true
 		paths, ok := d.paths(x, nil)
-		good := ok && allLitPathsContain(paths, "$0.ctx.Client.CUID != $2.CUID", "GetDUID() == $2.DUID")
+		good := ok && (allLitPathsContain(paths, "$0.ctx.Client.CUID != $2.CUID", "GetDUID() == $2.DUID") || allLitPathsContain(paths, "$2.CUID != $0.ctx.Client.CUID", "GetDUID() == $2.DUID") ||
+			allLitPathsContain(paths, "$0.ctx.Client.CUID != $2.CUID", "$2.DUID == ") || allLitPathsContain(paths, "$2.CUID != $0.ctx.Client.CUID", "$2.DUID == "))
 		r.Check(good, "ReceiveNotification/own notification ignored", d.pos(u, x), "sync only for foreign notifications of the same DUID", fmt.Sprintf("the sync is reached under %v", strsOf(paths)))
 		behind := ok && len(paths) > 0
 		for _, p := range paths {
